@@ -481,7 +481,7 @@ def parse_tool(repo, name, rel):
                 q = s.find_seq(["exit", "("], b0, s.match[b0])
                 if q < 0 or s.k[q + 2] != "num" or s.v[q + 3] != ")": raise Problem("%s: num_options==0 branch does not exit(literal)" % rel)
                 tool["unknown_exit"] = int(s.v[q + 2]); i = s.match[b0] + 1; continue
-            if set(ctoks) & {"argc", "help_mode"} or (not seen_work and any(d["var"] in ctoks for d in tool["decls"]) and "==" in ctoks and '""' in ctoks):
+            if set(ctoks) & {"argc", "help_mode", "unknown_argument"} or s.find_seq(["cmd", ".", "num_options", "("], c0, c1) >= 0 or (not seen_work and any(d["var"] in ctoks for d in tool["decls"]) and "==" in ctoks and '""' in ctoks):
                 # disjunction of atoms
                 conds = []; j = c0; cur = []
                 parts = []
@@ -493,6 +493,12 @@ def parse_tool(repo, name, rel):
                 for p in parts:
                     if len(p) == 3 and p[0] == "argc" and p[1] == "<" and p[2].isdigit(): conds.append(("argc_lt", int(p[2]))); recognised_argc += 1
                     elif p == ["cmd", ".", "help_mode", "(", ")"]: conds.append(("help", 0))
+                    elif p == ["const", "char", "*", "arg", "=", "cmd", ".", "unknown_argument", "(", ")"]: conds.append(("unknown", 0))
+                    elif p[:4] == ["cmd", ".", "num_options", "("] and p[-3:] == [")", ">", "1"]:
+                        inner = p[4:-3]
+                        if inner and not (inner[0] == "{" and inner[-1] == "}" and all(x == "," or (x.startswith('"') and x.endswith('"')) for x in inner[1:-1])):
+                            raise Problem("%s: num_options argument `%s` not a brace list of literals" % (rel, " ".join(inner)))
+                        conds.append(("many", [unq(x) for x in inner[1:-1] if x != ","] if inner else []))
                     elif len(p) == 3 and p[1] == "==" and p[2] == '""' and any(d["var"] == p[0] and d["kind"] == "string" for d in tool["decls"]):
                         conds.append(("empty", p[0]))
                     else: raise Problem("%s: early-return condition `%s` not recognised" % (rel, " ".join(p)))
@@ -513,6 +519,7 @@ def parse_tool(repo, name, rel):
                 if ret is None: raise Problem("%s: early-return branch on `%s` does not return a literal" % (rel, " ".join(ctoks)))
                 if s.v[nxt] == "else": raise Problem("%s: early-return with else" % rel)
                 if tool["blocks"] or seen_work: raise Problem("%s: early-return check `%s` after the work started" % (rel, " ".join(ctoks)))
+                if any(c[0] == "unknown" for c in conds): tool["_unknown_after"] = len(tool["decls"])
                 tool["pre"].append(dict(conds=conds, calls_help=calls_help, ret=ret))
                 i = nxt; continue
         # ---- anything else: one statement / block; remember positional uses
@@ -556,6 +563,8 @@ def parse_tool(repo, name, rel):
     n_opt = sum(1 for j in range(lo, hi - 2) if s.v[j:j + 3] == ["cmd", ".", "option"])
     if n_opt != recognised_option_calls:
         raise Problem("%s: %d cmd.option calls in main, %d recognised" % (rel, n_opt, recognised_option_calls))
+    if tool.pop("_unknown_after", len(tool["decls"])) != len(tool["decls"]):
+        raise Problem("%s: an option is declared after the unknown_argument() check" % rel)
     if tool["has_blocks"] and tool["unknown_exit"] is None:
         raise Problem("%s: no `if (num_options==0) exit` after the option blocks" % rel)
     if tool["argv_uses"] and tool["has_blocks"]:
@@ -605,6 +614,8 @@ def emit(tools):
             for c in p["conds"]:
                 if c[0] == "argc_lt": cs.append("CArgcLt %d" % c[1])
                 elif c[0] == "help": cs.append("CHelp")
+                elif c[0] == "unknown": cs.append("CUnknown")
+                elif c[0] == "many": cs.append("CManyOptions %s" % clist([cstr(x) for x in c[1]]))
                 else: cs.append("CEmpty %s" % cstr(c[1]))
             pcs.append("{| pc_conds := %s; pc_calls_help := %s; pc_ret := %s |}" % (clist(cs), "true" if p["calls_help"] else "false", cz(p["ret"])))
         o.append("  t_pre := %s;" % clist(pcs))
